@@ -15,9 +15,10 @@ PROP = {
                    "margins, g++; errors below the property's own tolerances (1.5 units off the input, 2 units of length per "
                    "crossing, input vertices on the boundary counted as crossings) are not observable"),
     "technique": "runtime monitoring: exact Liang-Barsky length/containment/order oracle over generated executions",
-    "rule": ("cases = one rectangle and 1-4 open polylines (1-13 points); 50% lattice scenes (<=10x10 lattice scaled by "
+    "rule": ("cases = one rectangle and 1-4 open polylines (1-13 points); 40% lattice scenes (<=10x10 lattice scaled by "
              "1..2^36, rectangle on lattice lines, 5 polyline kinds incl. boundary-heavy, axis-parallel walks, complete "
-             "crossings, 1-3 point paths), 50% random scenes at magnitudes 2^6..2^40 (6 kinds incl. corner grazing, end points "
+             "crossings, 1-3 point paths), 10% adversarial corner scenes (segments whose line passes through a rectangle corner "
+             "exactly or within a sub-unit offset at magnitudes 2^12..2^40, harness/c08_corner.h), 50% random scenes at magnitudes 2^6..2^40 (6 kinds incl. corner grazing, end points "
              "on the boundary, runs on the sides' lines); every polyline is clipped alone and judged, multi-polyline cases also "
              "in one call (order clause); a case is non-trivial iff some polyline properly crosses the rectangle boundary (a "
              "segment is cut by Liang-Barsky); distinct by hash of rectangle+polylines"),
